@@ -10,6 +10,7 @@ from . import c05
 
 ID = "C06"
 LEVEL = "exploration"
+W3_CONTRACTS = ['K5']  # the repository's own tests are also run under these contracts
 DECIDING = ["Schema.__init__", "Schema.validate", "ValidatedData.__init__", "ValidatedData.get_failures_string"]
 RULE = ("case = (list of 0..6 (thorough 0..10) cast-free rule terms, document, >=4 permutations of the list - "
         "all 24 for n=4). For every permutation a fresh Schema is built and validated: schema.rules must be "
